@@ -196,6 +196,8 @@ Inductive sop :=
 | InfDelete (nc : name)                                (* informer: Cluster.DeleteNodeClaim after the removal *)
 | SMark (k : kind) (np nc : name).                     (* MarkForDeletion / UnmarkForDeletion / MarkPendingDisruption / deprovisioning *)
 
+Definition replace_nth {A} (i : nat) (x : A) (l : list A) : list A := firstn i l ++ x :: skipn (S i) l.
+
 Section Protocol.
   Variable L : name -> Z.                (* limits.nodes of each static pool (MaxInt64 when unset) *)
 
@@ -203,7 +205,7 @@ Section Protocol.
   Definition with_nps (s : sys) (n : st) : sys := mkSys n (api s) (tks s) (fresh s) (crashed s).
 
   Definition set_tk (s : sys) (i : nat) (t : ticket) : sys :=
-    mkSys (nps s) (api s) (firstn i (tks s) ++ t :: skipn (S i) (tks s)) (fresh s) (crashed s).
+    mkSys (nps s) (api s) (replace_nth i t (tks s)) (fresh s) (crashed s).
 
   Fixpoint pool_of (nc : name) (l : list (name * name)) : option name :=
     match l with [] => None | (c, p) :: t => if Nat.eqb nc c then Some p else pool_of nc t end.
